@@ -169,7 +169,17 @@ func runC01(c *vh.Ctx) {
 		"2..6-operand concatenations; constant field/array index shortcuts; getline into a field; normalised results used as values in " +
 		"programs whose inline operand words sweep the opcode number range; CSV/TSV output mode: rebuilt $0 vs print of the fields), then random programs (depth-bounded " +
 		"grammar over the modelled statement/expression language plus calls, for-in, delete, printf) with randomly nested rewrites. " +
-		"A case is one pair (or one block for the code correspondence); non-trivial = the two spellings compile to different code")
+		"A case is one pair (or one block for the code correspondence); non-trivial = the two spellings compile to different code. " +
+		"The second spelling of a pair runs with a random kind of Config.Output (bytes.Buffer / plain writer / bufio.Writer of six sizes / a writer that " +
+		"hands bytes on only at Flush; never flushed by the harness). Endings stream: programs of a small output-centred AWK subset, built from a matrix " +
+		"ending (normal, exit, exit code, next, return, 19 kinds of run-time error) x block (BEGIN, later BEGIN, rule on record 1 / 2, pattern, END, later END) " +
+		"x via (direct, function, two calls deep, recursion, call in a print argument) x nesting (plain, for, while, do, for-for, for-in, getline loop, if, else) " +
+		"x expression position (9) x output written before (10 destination sets over stdout, > file, >> file, | cat > file, | cat >> file, /dev/stdout; " +
+		"sometimes beyond the 64 KiB stream buffer) x synchronisation before the ending (none, close, close with value, fflush(name), fflush(), system snapshot), " +
+		"stratified so that every ending meets every block x via, every output set x synchronisation and every nesting x position (thorough: 4 draws each; " +
+		"quick: a seed-dependent third), plus random programs of the same language; each run in two spellings and two kinds of Config.Output in a scratch " +
+		"directory and compared — standard output, every file afterwards, exit status, error/no-error — with a tree-walking reference evaluator in which " +
+		"destinations are logs; non-trivial = the two spellings differ")
 	d, err := os.MkdirTemp("", "c01")
 	if err != nil {
 		panic(err)
